@@ -156,3 +156,63 @@ func (f FFT) Inverse(x []complex128) []complex128 {
 	}
 	return x
 }
+
+// Inverse_alt1: the same, with the index reversal written over len(x) (which equals f.N past the length check).
+func (f FFT) Inverse_alt1(x []complex128) []complex128 {
+	if len(x) != f.N {
+		panic("length mismatch")
+	}
+	N := len(x)
+	for i := 1; i < N/2; i++ {
+		j := N - i
+		x[i], x[j] = x[j], x[i]
+	}
+	f.Transform(x)
+	inv := 1.0 / float64(f.N)
+	for i := 0; i < len(x); i++ {
+		x[i] = x[i] * complex(inv, 0)
+	}
+	return x
+}
+
+// fftNew_alt1: the same plan built without named results (the zero FFT is returned with the error).
+func fftNew_alt1(N int) (FFT, error) {
+	n, p, err := lastPow2(N)
+	if err != nil {
+		return FFT{}, err
+	}
+	return FFT{N: n, p: p, E: roots(n), perm: permutationIndex(p)}, nil
+}
+
+// lastPow2_alt1: the doubling search written as a while loop: n doubles as long as the double still fits, p counts
+// the doublings from 1 (the same (n, p) as the loop-with-exit-in-the-middle of lastPow2: both stop at the first
+// n with 2n > N). Zeros are returned with the errors.
+func lastPow2_alt1(N int) (n, p int, err error) {
+	if N < 2 {
+		return 0, 0, fmt.Errorf("fft input length must be >= 2")
+	}
+	if N > 1<<27 {
+		return 0, 0, fmt.Errorf("fft input length must be < %d. It is: %d", 1<<27, N)
+	}
+	n = 2
+	for p = 1; n*2 <= N; p++ {
+		n *= 2
+	}
+	return n, p, nil
+}
+
+// lastPow2_alt2: the same with the shift spelling of the doubling.
+func lastPow2_alt2(N int) (n, p int, err error) {
+	if N < 2 {
+		return 0, 0, fmt.Errorf("fft input length must be >= 2")
+	}
+	if N > 1<<27 {
+		return 0, 0, fmt.Errorf("fft input length must be < %d. It is: %d", 1<<27, N)
+	}
+	n, p = 2, 1
+	for n<<1 <= N {
+		n <<= 1
+		p++
+	}
+	return n, p, nil
+}
